@@ -93,7 +93,7 @@ def main():
             binfo = {"untranslatable": [], "make_ok": True, "failed_vo": [], "driver_ok": True, "gate": [],
                      "props": build.check_props(prop), "build_s": 0, "gen_out": "", "make_log_tail": "", "driver_log": ""}
     else:
-        binfo = build.full_build(prop)
+        binfo = build.full_build(prop, getattr(hmod, "EXTRACT_TAGS", None))
     props = binfo["props"]
     theorems = props["theorems"]
     whitelist = set(getattr(hmod, "AXIOM_WHITELIST", []))
